@@ -349,13 +349,17 @@ class C05(engine.Property):
         if half and (not unset or rng.random() < 0.6):
             e, p = rng.choice(half)
             st.stats["probe:half-attached-edge-completed-from-the-vertex-side"] += 1
-            ops = [{"op": "neighbors", "v": p, "unk": "nb", "dir": "any"}]
+            # reads of the vertex itself and of everyone else the edge names
+            reads = [{"op": "neighbors", "v": p, "unk": "nb", "dir": "any"}]
+            for x in dict.fromkeys(y for y in view.ends(e) if y is not None and y != p and y in view.snap):
+                reads.append({"op": "neighbors", "v": x, "unk": "nb", "dir": rng.choice(["any", "fwd"])})
+            ops = [dict(r) for r in reads]
             mine = [l for l in view.links_of(p) if view.snap.get(l, {}).get("k") == "e"]
             if mine:
                 ops.append({"op": "remove_from_link", "v": p, "e": rng.choice(mine)})
-                ops.append({"op": "neighbors", "v": p, "unk": "nb", "dir": "any"})
+                ops.extend(dict(r) for r in reads)
             ops.append({"op": "add_to_link", "v": p, "e": e})
-            ops.append({"op": "neighbors", "v": p, "unk": "nb", "dir": "any"})
+            ops.extend(dict(r) for r in reads)
             return ops
         if unset:
             e = rng.choice(unset)
